@@ -174,8 +174,21 @@ def cell_kind(sde_type, noise_type):
     return "diagonal" if noise_type == "diagonal" else "default"
 
 
-def _cat_matches(got, want):
-    return isinstance(got, Cat) and len(got.parts) == len(want) and all(nf.equal(g, w) for g, w in zip(got.parts, want))
+def _value_of(x):
+    """The value of an expression: `.detach()` changes what autograd sees, not the number."""
+    def f(a, args):
+        if a[0] == "lin" and a[1] == "DETACH":
+            return args[1]
+        return None
+    return nf.rewrite(Rat.lift(x), f)
+
+
+def _cat_matches(got, want, values_only=False):
+    if not (isinstance(got, Cat) and len(got.parts) == len(want)):
+        return False
+    if values_only:
+        return all(nf.equal(_value_of(g), _value_of(w)) for g, w in zip(got.parts, want))
+    return all(nf.equal(g, w) for g, w in zip(got.parts, want))
 
 
 def r11_1(ctx):
@@ -242,8 +255,10 @@ def r11_1(ctx):
                     savg = nf.linear("sum_all", (), vjp(Gv, y, nf.linear("DETACH", (), c)))
                     want_ms_detached = [vjp(Gv, y, v2 * Gv), vjp(Gv, y, w) - vjp(savg, y, Rat.const(1)),
                                         vjp(Gv, theta, w) - vjp(savg, theta, Rat.const(1))]
-                    ok = isinstance(got, tuple) and len(got) == 2 and _cat_matches(got[0], want_gp) and \
-                        (_cat_matches(got[1], want_ms) or _cat_matches(got[1], want_ms_detached))
+                    # with gradients disabled the blocks may be detached on the way out (R11.3 wants exactly that where a vjp
+                    # can hand back its cotangent): values are compared
+                    ok = isinstance(got, tuple) and len(got) == 2 and _cat_matches(got[0], want_gp, values_only=not rg) and \
+                        (_cat_matches(got[1], want_ms, values_only=not rg) or _cat_matches(got[1], want_ms_detached, values_only=not rg))
                     rep.check(ok, "R11.1", astq.loc(ms.fi), f"{ms.fi.key}::R11.1::milstein::{cell}",
                               f"adjoint Milstein pair for ({cell}) is `{[_show(x) for x in got] if isinstance(got, tuple) else got}`; "
                               f"prescribed: (adjoint g_prod of v1, [vjp(g, y, v2 g), product-rule partials minus mixed "
@@ -347,10 +362,20 @@ def r11_3(ctx):
                 outs.append((ms.fi, r[1]))
             # results of calls whose create_graph evaluated to something true keep a graph
             graphy = set()
+
+            def carries_graph(x):
+                """An expression computed under enable_grad from the re-rooted state: opaque evaluations outside a DETACH."""
+                return isinstance(x, Rat) and any(a[0] in ("fn", "bil") for a in x.atoms())
             for c in hooks.calls:
                 cgv = c["kwargs"].get("create_graph", False)
                 if cgv is True:
                     for r in c["result"]:
+                        graphy |= set(r.atoms())
+                elif c["kind"] == "vjp" and carries_graph(c.get("go")):
+                    # autograd hands a cotangent back *as* the gradient when the differentiated map is the identity in that
+                    # input (g = y + c: dg/dy = I): the result is then the cotangent tensor itself, graph and all, whatever
+                    # create_graph says
+                    for r in c["result"][:1]:
                         graphy |= set(r.atoms())
             for fi, cat in outs:
                 if not isinstance(cat, Cat):
